@@ -130,6 +130,7 @@ impl<'a> K2 for PostArith<'a> {
         match self.kind {
             "add" => { self.props.add(a, b, self.s); }
             "sub" => { self.props.sub(a, b, self.s); }
+            "mul" => { self.props.mul(a, b, self.s); }
             k => panic!("bad arithmetic kind {}", k),
         }
     }
@@ -148,7 +149,7 @@ fn post_props(t: &[&str], vars: &[VarId], props: &mut Propagators) -> bool {
         "leq" | "lt" | "geq" | "gt" | "eq" => {
             with2(parse_fv(t[1]), parse_fv(t[2]), vars, PostCmp { props, kind: t[0] });
         }
-        "add" | "sub" => {
+        "add" | "sub" | "mul" => {
             let s = vars[var_ix(t[3])];
             with2(parse_fv(t[1]), parse_fv(t[2]), vars, PostArith { props, kind: t[0], s });
         }
